@@ -1,6 +1,7 @@
 """C16 -- remove_unloaded deletes exactly the dead logic."""
 from hypothesis import strategies as st
 
+import circuitgraph as cg
 from cgv import refsim, specs
 from cgv import strategies as S
 from cgv.harness import Violation, lib, need
@@ -82,7 +83,8 @@ def _case(draw, ctx):
             pools=(S.BENIGN, ["\\u1.dbg", "\\core.n1", "\\a.b.c", "\\m.x", "\\top.u2.q"]) if (inp and draw(st.integers(0, 3)) == 0) else (S.BENIGN,),
         )
     )
-    return {"spec": spec, "inputs": inp, "raw_attrs": draw(st.integers(0, 3)) == 0}
+    return {"spec": spec, "inputs": inp, "raw_attrs": draw(st.integers(0, 3)) == 0,
+            "prior": draw(st.sampled_from([None, None, True, False]))}
 
 
 def strategy(ctx):
@@ -115,6 +117,14 @@ def check(case, ctx):
         if t == "input" and not inp:
             continue
         exp_del.add(n)
+    if case.get("prior") is not None:
+        # an earlier call on another circuit in the same process, with the other (or the same) flag value
+        other = cg.Circuit(name="earlier")
+        other.add("i0", "input")
+        other.add("i1", "input")
+        other.add("dead", "and", fanin=["i0", "i1"])
+        other.add("o", "buf", fanin="i0", output=True)
+        lib(other.remove_unloaded, inputs=bool(case["prior"]))
     removed = need(lib(c.remove_unloaded, inputs=inp) if inp else lib(c.remove_unloaded), "remove_unloaded", f"remove_unloaded(inputs={inp})")
     removed = list(removed)
     after_nodes = set(c.graph.nodes)
